@@ -3,6 +3,7 @@
 #include <cstdio>
 #include <cstdlib>
 #include <new>
+#include <algorithm>
 
 namespace vf {
 
@@ -46,6 +47,22 @@ int Shape::compoParent(int s, int* prong) const {
 		if (st[p].kind == 1) { if (prong) *prong = st[c].prong; return p; }
 	if (prong) *prong = -1;
 	return -1;
+}
+
+// the save format, read off the property: one bit "activated"; every active composite-style region writes its active sub-state index
+// (as many bits as its width needs); every composite-style region, active or not, writes one flag and, if set, its resumable index.
+// Only one sub-state of a composite region is active at a time (longest alternative counts), all sub-states of an orthogonal one are.
+static int indexBits(int width) { int b = 0; while ((1 << b) < width) ++b; return b; }
+static int activeBitsOf(const Shape& sh, int s) {
+	if (sh.st[size_t(s)].kind == 0) return 0;
+	int best = 0, sum = 0;
+	for (int c : sh.kids[size_t(s)]) { const int v = activeBitsOf(sh, c); best = std::max(best, v); sum += v; }
+	return sh.st[size_t(s)].kind == 1 ? indexBits(sh.st[size_t(s)].width) + best : sum;
+}
+int Shape::serialBitsNeeded() const {
+	int resumable = 0;
+	for (int s = 0; s < n; ++s) if (st[size_t(s)].kind == 1) resumable += 1 + indexBits(st[size_t(s)].width);
+	return 1 + activeBitsOf(*this, 0) + resumable;
 }
 
 static std::vector<NodeFactory>& factoryList() { static std::vector<NodeFactory> v; return v; }
